@@ -57,6 +57,8 @@ func (c06) Info() core.Info {
 		Assumptions: []string{
 			"a prefix ending exactly on the boundary after >=1 complete section when further sections follow is indistinguishable from a complete payload and is exempt from the predicate check; a packet boundary on such a point is exempt from the stream check (ISO would start a new unit there)",
 			"the first packet of the PMT PID on the wire carries payload_unit_start_indicator",
+			"two stream entries may name the same elementary PID; the PID list then lists it twice, in step with the stream list",
+			"tables that follow one another on the same reader are each found by the next call (no call takes more from the caller's reader than the packets of the table it returns, as far as a following table can tell)",
 			"descriptor bodies are compared through the decoders for the decodable kinds; opaque descriptors by tag only (the API exposes no raw body)",
 			"after an injected reader error ReadPMT may return that error or the exact answer; truncation before the last needed packet must give ErrPMTNotFound",
 		},
@@ -108,6 +110,12 @@ func genWire(r *core.Rand, payloadLen int, pid int) Wire {
 func (c06) Gen(r *core.Rand, tier string) interface{} {
 	s := &C06Script{}
 	s.PMT = genPMT(r, 40)
+	if n := len(s.PMT.Streams); n >= 2 && r.Chance(1, 10) {
+		// "any list of elementary streams": two entries on one elementary PID (e.g. a stream
+		// announced with two stream types); the PID list lists it twice, like the stream list
+		j := r.Range(1, n-1)
+		s.PMT.Streams[j].PID = s.PMT.Streams[r.Intn(j)].PID
+	}
 	// up to 182 the first section starts inside the first packet (ISO); larger values are
 	// still a legal payload layout for the library (filler reaching into the next packet)
 	s.Pointer = r.Pick(0, 0, 0, 1, 5, 20, 182, 183, 254, 255, r.Range(0, 182), r.Range(0, 255))
